@@ -1,0 +1,37 @@
+//go:build verif
+// +build verif
+
+package space
+
+// Verification hooks (build tag "verif"): the three kernel implementations
+// individually, bypassing the CPU dispatch of newSpace, for the conformance
+// harness in /verif.  Not part of the production build.
+
+import "fmt"
+
+// VerifImpl returns the implementation with the given name: "native", "sse" or "avx".
+func VerifImpl(name string) SpaceImpl {
+	switch name {
+	case "native":
+		return nativeSpaceImpl{}
+	case "sse":
+		return sseSpaceImpl{}
+	case "avx":
+		return avxSpaceImpl{}
+	}
+	panic(fmt.Sprintf("verif: unknown space implementation %q", name))
+}
+
+// VerifSpace returns the public Space of the given kind ("euclidean",
+// "manhattan", "cosine") over a chosen implementation.
+func VerifSpace(kind string, impl SpaceImpl) Space {
+	switch kind {
+	case "euclidean":
+		return &Euclidean{space{impl: impl}}
+	case "manhattan":
+		return &Manhattan{space{impl: impl}}
+	case "cosine":
+		return &Cosine{space{impl: impl}}
+	}
+	panic(fmt.Sprintf("verif: unknown space kind %q", kind))
+}
